@@ -23,7 +23,8 @@ pub const INPUTS: [&str; 9] = [
     "Mix @flour{200%g} and #bowl.\n\nRest @&(~1)dough{} and @&flour{100%g} in #&bowl ~{1%h}.\n",
     ">> k: v\n@a{1/0} @|{}\n\nmore @b{2}\n",
     "Bake at 180 C for 20 min or 350 F.\n",
-    "@milk{1 1/2%cup} @&milk{0.333%cup}\n",
+    // same byte length as input 0 (parsed from the same reused buffer, i.e. same address and length) and recipe references
+    "@milk{1 1/2%cup} @&milk{0.33%cup} @@abc{} @@abcd{} @@abcde{}\n",
     "= A\n> note é\n\nStep ~t{5%min}(x)\n== B ==\n@é{1}\n",
     ">> prep time: 5\n>> cook time: 3\n>> time: 10\n>> tags: a, b\nstep @x{1} @&x{2}\n",
 ];
@@ -53,7 +54,25 @@ pub const CALLS: usize = INPUTS.len() * KINDS;
 /// observation) so that state leaking from one kind of call into the next is
 /// not hidden by happening identically in the reference.
 pub fn observe(p: &CooklangParser, call: usize) -> String {
-    let input = INPUTS[call / KINDS];
+    let original = INPUTS[call / KINDS];
+    // every call parses from the same per-thread buffer, as a program reading files into one String would:
+    // consecutive inputs then sit at the same address (and inputs 0 and 6 also have the same length)
+    BUF.with(|b| {
+        let mut b = b.borrow_mut();
+        if b.capacity() < 4096 {
+            b.reserve(4096);
+        }
+        b.clear();
+        b.push_str(original);
+        observe_text(p, call, &b, original)
+    })
+}
+
+thread_local! {
+    static BUF: std::cell::RefCell<String> = const { std::cell::RefCell::new(String::new()) };
+}
+
+fn observe_text(p: &CooklangParser, call: usize, input: &str, original: &'static str) -> String {
     match call % KINDS {
         3 => exact_image(&crate::oracles::parse_with_callbacks(p, input)),
         4 => {
@@ -64,7 +83,7 @@ pub fn observe(p: &CooklangParser, call: usize) -> String {
                 metadata_validator: Some(Box::new(|_k: &serde_yaml::Value, _v: &serde_yaml::Value, _o: &mut cooklang::analysis::CheckOptions| {
                     let mut n = nested.borrow_mut();
                     if n.is_none() {
-                        *n = Some(exact_image(&p.parse(input)));
+                        *n = Some(exact_image(&p.parse(original)));
                     }
                     cooklang::analysis::CheckResult::Ok
                 })),
@@ -80,7 +99,21 @@ pub fn observe(p: &CooklangParser, call: usize) -> String {
             let m = p.parse_metadata(input);
             format!("meta={:?} {:?}", m.output().map(|m| serde_json::to_string(m).unwrap_or_default()), m.report().iter().map(|d| format!("{:?}/{:?} {:?} labels={:?} hints={:?}", d.severity, d.stage, d.message, d.labels, d.hints)).collect::<Vec<_>>())
         }
-        _ => match p.parse(input).into_output() {
+        _ => match p
+            .parse_with_options(
+                input,
+                cooklang::ParseOptions {
+                    // answers differently from the check of call kind 3 for every name
+                    recipe_ref_check: Some(Box::new(|name: &str| match name.len() % 3 {
+                        0 => cooklang::analysis::CheckResult::Ok,
+                        1 => cooklang::analysis::CheckResult::Error(vec!["not here".into()]),
+                        _ => cooklang::analysis::CheckResult::Warning(vec!["perhaps".into()]),
+                    })),
+                    metadata_validator: None,
+                },
+            )
+            .into_output()
+        {
             Some(o) => {
                 let mut sc = o.scale(1.5, p.converter());
                 let errs = sc.convert(System::Imperial, p.converter()).len();
@@ -484,6 +517,10 @@ pub fn replay(case: &J) -> Vec<Violation> {
 pub fn run(tier: Tier) {
     let c = ctx();
     c.set_rule("histories: every sequence of 1..=n calls (parse, parse_metadata, parse+scale+convert, parse with metadata / recipe-reference callbacks) over 9 inputs chosen to touch every piece of per-parse state (front matter, `>>` time-override bookkeeping, modes, duplicate mode, references, intermediate references, a parse-stage error that drains the iterator, inline quantities, fractions with scaling and conversion that force the lazily built fraction table) on one shared parser per configuration, repeated on a clone and on a new instance, all in one process; each call's complete observation (recipe JSON, ordered diagnostics with labels and hints, metadata-only parse, scaled+converted recipe) must equal the observation of a fresh subprocess whose first call it is; all ordered pairs of event-wise interleaved pull parsers; schedules: iterative context bounding over real threads sharing one parser, scheduling points at every token pulled and every event consumed (hook), all schedules with at most p preemptions; each thread's observations must equal the fresh-process reference; non-trivial = every history / schedule; distinct = distinct histories and schedules");
+    if INPUTS[0].len() != INPUTS[6].len() {
+        eprintln!("engine: C18 inputs 0 and 6 must have the same byte length");
+        std::process::exit(2);
+    }
     let reference = match fresh_reference() {
         Ok(r) => Arc::new(r),
         Err(e) => {
